@@ -56,10 +56,12 @@ def directed(tier):
     # a worker finishes its chunks and leaves on the close() sentinel while the
     # rest of a chunked map runs on for longer than the map's 10 s lost-worker
     # timeout: nothing may be reported lost, join() must not be held up
-    out.append({'nproc': 2, 'maxtasks': None, 'threads': True, 'T': 2.0, 'pool_hard': None,
+    # (the first chunk takes 1 s so that the other workers have started and
+    # hold the long chunks by the time its worker is done and leaves)
+    out.append({'nproc': 3, 'maxtasks': None, 'threads': True, 'T': 2.0, 'pool_hard': None,
                 'close_delay': 0.3, 'jobs': [
-                    {'kind': 'map', 'tag': 'dm', 'n': 4, 'chunk': 2, 'dur': 0.05,
-                     'durs': [0.05, 0.05, 6.5, 6.5]}]})
+                    {'kind': 'map', 'tag': 'dm', 'n': 6, 'chunk': 2, 'dur': 0.05,
+                     'durs': [0.5, 0.5, 6.5, 6.5, 6.5, 6.5]}]})
     # slow result callbacks hold the result handler up while workers leave:
     # their DEATH notices are read after they were reaped
     out.append({'nproc': 2, 'maxtasks': None, 'threads': True, 'T': 2.0, 'pool_hard': None,
